@@ -44,10 +44,14 @@ def toposort2(data):
     data.update(dict([(item,set()) for item in extra_items_in_deps]))
 
     while True:
-        ordered = set(item for item,dep in data.items() if len(dep) == 0)
+        # a list in the insertion order of data: sorted() is stable, so items
+        # with the same repr() come out in that order and not in the order a
+        # set happens to iterate in.
+        ordered = [item for item,dep in data.items() if len(dep) == 0]
         if len(ordered) == 0:
             break
         yield sorted(ordered, key=lambda x:repr(x))
+        ordered = set(ordered)
         data = dict([(item, (dep - ordered)) for item,dep in data.items()
                                                         if item not in ordered])
 
